@@ -299,8 +299,12 @@ AceOf(u) == IF \A i \in 1..Len(u) : u[i] < 128 THEN u ELSE XnPrefix \o PunyEncod
 JoinDots(segs) == IF segs = <<>> THEN <<>>
                   ELSE FoldLeft(LAMBDA acc, x : acc \o << 46 >> \o x, segs[1], Tail(segs))
 
-\* UTS #46 Processing on code points: [ok, unspec, labels]
-Process(cps) ==
+\* UTS #46 Processing on code points: [ok, unspec, labels].
+\* strict = TRUE is UTS #46 as written: in a Bidi domain name EVERY label must satisfy the Bidi rule.
+\* strict = FALSE is a documented deviation used only to CLASSIFY a divergence of the implementation
+\* (known finding D10): the Bidi rule applied only to labels that themselves contain an R / AL / AN
+\* character.  The deviation is never the expected value.
+ProcessX(cps, strict) ==
   LET m == MapCps(cps) IN
   IF \E i \in 1..Len(cps) : ~Known(cps[i]) THEN [ok |-> FALSE, unspec |-> TRUE, labels |-> <<>>]
   ELSE IF m.bad THEN [ok |-> FALSE, unspec |-> FALSE, labels |-> <<>>]
@@ -311,28 +315,34 @@ Process(cps) ==
          IN IF \E i \in 1..Len(pl) : pl[i].unspec \/ ~PunyEncodable(pl[i].u)
               THEN [ok |-> FALSE, unspec |-> TRUE, labels |-> <<>>]
             ELSE LET bidiDomain == \E i \in 1..Len(pl) : IsBidiLabel(pl[i].u)
-                     bad == \E i \in 1..Len(pl) : pl[i].err \/ (bidiDomain /\ ~BidiOk(pl[i].u))
+                     Checked(i) == IF strict THEN bidiDomain ELSE IsBidiLabel(pl[i].u)
+                     bad == \E i \in 1..Len(pl) : pl[i].err \/ (Checked(i) /\ ~BidiOk(pl[i].u))
                  IN [ok |-> ~bad, unspec |-> FALSE, labels |-> [i \in 1..Len(pl) |-> pl[i].u]]
+Process(cps) == ProcessX(cps, TRUE)
 
 \* ---------------------------------------------------------------- interface
 InFragment(cps) == \A i \in 1..Len(cps) : Known(cps[i])
 
 \* ToASCII of a (not all-ASCII) domain given as code points
-FragToAscii(cps) ==
-  LET p == Process(cps) IN
+FragToAsciiX(cps, strict) ==
+  LET p == ProcessX(cps, strict) IN
   IF p.unspec THEN [ok |-> FALSE, unspec |-> TRUE, s |-> <<>>]
   ELSE IF ~p.ok THEN [ok |-> FALSE, unspec |-> FALSE, s |-> <<>>]
   ELSE [ok |-> TRUE, unspec |-> FALSE,
         s |-> JoinDots([i \in 1..Len(p.labels) |-> AceOf(p.labels[i])])]
 
+FragToAscii(cps) == FragToAsciiX(cps, TRUE)
+
 \* ToUnicode of an ASCII domain (bytes): an "xn--" label that this algorithm
 \* accepts is replaced by its decoded form, every other label is kept; never fails.
 \* [unspec, s] with s = UTF-8 bytes.
-FragToUnicode(ascii) ==
+FragToUnicodeX(ascii, strict) ==
   LET labs == Split(LowerStr(ascii), 46)
       pl == [i \in 1..Len(labs) |-> ProcLabel(labs[i])]
       bidiDomain == \E i \in 1..Len(pl) : ~pl[i].err /\ IsBidiLabel(pl[i].u)
+      Checked(i) == IF strict THEN bidiDomain ELSE (~pl[i].err /\ IsBidiLabel(pl[i].u))
       outl == [i \in 1..Len(pl) |->
-                IF pl[i].err \/ (bidiDomain /\ ~BidiOk(pl[i].u)) THEN labs[i] ELSE Utf8Encode(pl[i].u)]
+                IF pl[i].err \/ (Checked(i) /\ ~BidiOk(pl[i].u)) THEN labs[i] ELSE Utf8Encode(pl[i].u)]
   IN [unspec |-> \E i \in 1..Len(pl) : pl[i].unspec, s |-> JoinDots(outl)]
+FragToUnicode(ascii) == FragToUnicodeX(ascii, TRUE)
 =============================================================================
